@@ -209,9 +209,13 @@ C03Family(r, c) ==   \* names the known defect families so that narrow known-fin
    ELSE "none"
 \* re-running an element yields statuses that depend only on the latest run: a step that the latest attempt did not
 \* start carries no "executed" status of an earlier attempt
+OwnHookRaised(r, el) == \E i \in HookEvsOf(r, el) : Ev(r, i).raised
 C03Latest(r) ==
-   IF \E s \in Scens(r) : LastAtt(r, s) >= 2 /\ \E p \in DOMAIN r.end.step_status[s] :
-         ~BeforeStepSeen(r, s, p) /\ r.end.step_status[s][p] \notin {"skipped", "untested", "undefined"}
+   IF \E s \in Scens(r) : LastAtt(r, s) >= 2 /\
+        \/ \E p \in DOMAIN r.end.step_status[s] :
+              ~BeforeStepSeen(r, s, p) /\ r.end.step_status[s][p] \notin {"skipped", "untested", "undefined"}
+        \* ... nor does the scenario keep the hook error of an earlier attempt
+        \/ (r.end.status[s] = "hook_error" \/ r.end.hook_failed[s]) /\ ~OwnHookRaised(r, s)
    THEN {"C03.latest_run_only"} ELSE {}
 C03(r) ==
    IF ~Ran(r) THEN {}
@@ -293,7 +297,6 @@ TagOrderOk(r, el) ==
    LET bt == TagHooksOf(r, el, "before_tag")  at == TagHooksOf(r, el, "after_tag")  tg == r.prog[el].tags IN
    /\ (bt = <<>> \/ [k \in DOMAIN bt |-> bt[k].tag] = tg)
    /\ (at = <<>> \/ [k \in DOMAIN at |-> at[k].tag] = tg)
-OwnHookRaised(r, el) == \E i \in HookEvsOf(r, el) : Ev(r, i).raised
 \* known defect family: only tag hooks of a RULE raised for this element (the code marks the feature instead)
 HookFamily(r, el) == IF Kind(r, el) = "rule" /\ (\A i \in HookEvsOf(r, el) : Ev(r, i).raised => HKind(Ev(r, i).name) = "tag")
                      THEN "rule_tag_hook" ELSE "none"
@@ -331,6 +334,11 @@ C12(r) ==
               ~OwnMatch(r, e.el) /\ (\A s \in ScensUnder(r, e.el) : ~Sel(r, s))
          THEN {"C12.not_for_skipped"} ELSE {})
    \cup (IF r.cfg.dry /\ \E i \in Ix(r) : IsHook(Ev(r, i)) THEN {"C12.not_in_dry_run"} ELSE {})
+   \* --stop still stops at the first failure: after a hook of an element raised no other element is started
+   \cup (IF r.cfg.stop /\ \E i, j \in Ix(r) : i < j /\ IsHook(Ev(r, i)) /\ Ev(r, i).raised /\ Ev(r, i).el # 0
+              /\ IsHook(Ev(r, j)) /\ Ev(r, j).name \in {"before_feature", "before_rule", "before_scenario"}
+              /\ Ev(r, j).el # Ev(r, i).el
+         THEN {"C12.stop_stops"} ELSE {})
 
 \* two-run clause: r.base = the fault-free run of the same program and configuration.  Every element outside the failing
 \* elements' own ancestry / descendants keeps the result it has without the fault.  Not asserted when either run was cut
